@@ -9,6 +9,14 @@ TRUST = ("rustc nightly's type checker and MIR construction (facts are read from
 
 CLAIMS = {
     # id: (technique, level text, design_ref)
+    "C06": ("order-source census (T-ORD) over resolved callees and receiver types + expected-zero entropy census + type facts",
+            "C06 is a good fit for static analysis: nondeterminism must enter through an identifiable source. The check enumerates "
+            "every order-revealing operation on a hash-ordered container (any hasher; resolved by rustc), requires each to be a "
+            "classified site whose sink is validated as order-insensitive, keeps an expected-zero census of RNG/RandomState::new/"
+            "threads/clocks/pointer exposure with a positive control, a frozen list of unstable sorts over totally ordered keys, "
+            "and type facts for the insertion-ordered inputs of decide(). A new source anywhere in the crates is a violation, "
+            "whatever input would be needed to observe it.",
+            "DESIGN.md section 4 C06"),
     "C09": ("who-may-call census over resolved trait-method call sites + memoisation guard-dominance/post-dominance (T-MEMO) on MIR",
             "Decides the mechanisms of C09 on every path: single choke point per provider method, each dominated by the miss "
             "edge of its memo lookup and followed by the insert under the same key, in-flight sharing for get_candidates, per-solve "
